@@ -31,7 +31,8 @@ ASSUMPTIONS = [
     "a lambda inherits the lock state of its definition point (wait predicates and local helpers)",
 ]
 DECIDED = ["a lock discipline", "b admission table", "b2 conflating pending flag", "h strictly increasing delivery cycles", "c FIFO", "d wake protocol", "d2 executor tables", "e one drain per cycle",
-           "f stop protocol", "g one value per cycle"]
+           "f stop protocol", "g one value per cycle",
+           'k stop protocol of push_source_stop (policy stop before on_stop and before the wait for quiescence)']
 NOT_DECIDED = ["liveness", "conflating policy content"]
 
 
